@@ -2,6 +2,9 @@ import ZnVerif.Properties.C03
 import ZnVerif.Properties.C03Stmt
 import ZnVerif.Properties.C03StmtExample
 import ZnVerif.Properties.C03Chars
+import ZnVerif.Properties.C03Layouts
+import ZnVerif.Properties.C03LayoutsExample
+import ZnVerif.Properties.C03LiteralExample
 open ZnVerif.Properties.C03
 #print axioms returned_tree_complete
 #print axioms production_complete
@@ -44,3 +47,14 @@ open ZnVerif.Properties.C03
 #print axioms canonical_text_unambiguous
 #print axioms CharsExample.exRts_wf
 #print axioms CharsExample.exProgram_rendered
+-- character level, free layout (Properties/C03Layouts.lean)
+#print axioms lex_rendered_doc
+#print axioms doc_in_order
+#print axioms parse_doc_is_laid_out
+#print axioms parse_render_doc
+#print axioms parse_render_doc_plain
+#print axioms doc_text_unambiguous
+#print axioms LayoutExample.frEls_wf
+#print axioms LayoutExample.frProgram_rendered
+#print axioms LiteralExample.mlEls_wf
+#print axioms LiteralExample.mlProgram_rendered
